@@ -26,7 +26,7 @@ pub fn prop() -> Prop {
     .random(
         "accepted-schemas",
         check,
-        |t| if t == Tier::Quick { 50_000 } else { 700_000 },
+        |t| if t == Tier::Quick { 300_000 } else { 3_000_000 },
         |t| if t == Tier::Quick { 700 } else { 1000 },
     )
     .text(check_text)
